@@ -382,6 +382,9 @@ func c04Case(c *Ctx, fn *ssa.Function, b *ana.Builder) {
 				if ok && any {
 					probes[fold] = call
 					r.Fn(ana.ShortFunc(cal))
+				} else if probes[fold] == nil && c04ByteProbe(c, pb, idx, fold) {
+					probes[fold] = call
+					r.Fn(ana.ShortFunc(cal))
 				}
 			}
 		}
@@ -429,6 +432,55 @@ func c04Case(c *Ctx, fn *ssa.Function, b *ana.Builder) {
 		}
 	}
 	r.Check(good, "C04.exits.case-mixed-iff-both", c.P.Pos(vc.Pos()), "validateCase returns an error exactly when both an upper-case and a lower-case character exist (value-set analysis over the two probe results)")
+}
+
+// c04ByteProbe: the probe written on the bytes themselves. On a US-ASCII string the first index where ToLower(s)
+// (ToUpper(s)) differs from s is the first byte in 'A'..'Z' ('a'..'z'); for all 256 byte values at once: the exit that
+// returns the loop index is reached exactly for the bytes of that range, the next iteration exactly for the others.
+func c04ByteProbe(c *Ctx, pb *ana.Builder, idx, fold string) bool {
+	lo, hi := 'A', 'Z'
+	if fold == "strings.ToUpper" {
+		lo, hi = 'a', 'z'
+	}
+	isAtom := func(t *ana.Term) bool { return matches("index(p0, "+idx+")", t) }
+	var hit []*ssa.BasicBlock
+	var inner *ana.Builder
+	for _, v := range c.vexits(pb) {
+		if v.Panic || len(v.Results) != 1 {
+			return false
+		}
+		if v.Results[0].String() == "-1" {
+			continue
+		}
+		f := v.Frames[len(v.Frames)-1]
+		if !matches(idx, v.Results[0]) || (inner != nil && inner != f.B) {
+			return false
+		}
+		inner = f.B
+		hit = append(hit, v.Instr.Block())
+	}
+	if inner == nil {
+		return false
+	}
+	reach, lits := inner.ByteReach(isAtom)
+	back := ana.BackEdges(inner.Fn)
+	if lits == 0 || len(back) == 0 {
+		return false
+	}
+	for v := 0; v < 256; v++ {
+		want := v >= int(lo) && v <= int(hi)
+		got, next := false, false
+		for _, b := range hit {
+			got = got || reach[v][b]
+		}
+		for _, e := range back {
+			next = next || reach[v][e.From]
+		}
+		if got != want || next == want {
+			return false
+		}
+	}
+	return true
 }
 
 func c04ASCII(c *Ctx, enc []uint64) {
